@@ -30,6 +30,7 @@ Partial: the client-side `Sender`/`Receiver` of the `aldrin` crate are not model
 import Aldrin.Lemmas.Broker.Handlers
 import Aldrin.Lemmas.Broker.Own
 import Aldrin.Lemmas.ClientChan
+import Aldrin.Lemmas.ClientChanAsync
 
 namespace Aldrin.Broker
 
@@ -217,6 +218,32 @@ theorem client_channel_all_schedules (max : Nat) (h1 : 0 < max) (h2 : max ≤ u3
   obtain ⟨sc, rc, e1, e2, e3, e4, _⟩ := hi.ex
   refine ⟨s, os, hr, hc, ?_, ⟨sc, rc, e1, e2, e3, e4⟩, hi.curPos, hmax ▸ hi.curLe, ClientChan.ready_of_caught_up hi⟩
   simpa [ClientChan.init] using hitems
+
+/-- **All interleavings, with messages in flight.** The same three parties, but every message waits in a FIFO queue
+until the schedule moves it (sender's client → broker, broker → receiver's queue, receiver's client → broker, broker →
+sender's queue); the schedule is any sequence of application operations and of moves of the four queues. Then: no
+`debug_assert!` fails; the broker refuses no item (it never sees one without credit) and no grant (none overflows);
+the sender's capacity plus the announcements in its queue and on their way plus the items on their way is the broker's
+credit of the sender; the receiver's `cur_capacity` is the broker's credit of the receiver plus the grants on their way
+plus the items waiting and on their way; what has been forwarded and not taken never exceeds the receiver's capacity;
+and when nothing is in flight and the receiver has taken everything, the sender may send. -/
+theorem client_channel_all_interleavings (max : Nat) (h1 : 0 < max) (h2 : max ≤ u32Max) (ops : List ClientChan.AOp) :
+    ∃ s os, ClientChan.arun (ClientChan.ASys.ofSys (ClientChan.init max)) ops = .ok (s, os) ∧ ClientChan.AObs.cutOff ∉ os ∧
+      (∃ sc rc, s.chan = ⟨.claimed ClientChan.sid sc, .claimed ClientChan.rid rc⟩ ∧
+        sc = s.snd.capacity + s.snd.queue.sum + s.bs.sum + s.sb ∧
+        s.rcv.cur = rc + s.rb.sum + s.rcv.items + s.br ∧ sc ≤ rc) ∧
+      0 < s.rcv.cur ∧ s.rcv.items + s.br ≤ s.rcv.max ∧
+      (s.sb = 0 → s.br = 0 → s.rb = [] → s.bs = [] → s.rcv.items = 0 → 0 < s.snd.drain.capacity) := by
+  obtain ⟨s, os, hr, hi, hc⟩ := ClientChan.arun_inv (ClientChan.AInv.ofSys (ClientChan.init_inv h1 h2)) ops
+  obtain ⟨sc, rc, e1, e2, e3, e4, _⟩ := hi.ex
+  exact ⟨s, os, hr, hc, ⟨sc, rc, e1, e2, e3, e4⟩, hi.curPos, hi.outstanding_le, hi.ready_at_rest⟩
+
+/-! non-vacuity: capacity 1; the item is sent, the sender polls `receiver_closed` while the item, then the grant, then
+the announcement are still on their way, and is ready again once the announcement has arrived -/
+example : (match ClientChan.arun (ClientChan.ASys.ofSys (ClientChan.init 1))
+      [.app .send, .app .ready, .brokerItem, .deliverItem, .app .take, .app .pollClosed, .brokerGrant, .app .ready, .deliverAnn, .app .ready] with
+    | .ok (s, os) => (os, s.snd.capacity, s.rcv.cur) | .error _ => ([], 0, 0)) =
+    ([.app .sent, .app .blocked, .moved, .moved, .app .item, .app .pending, .moved, .app .blocked, .moved, .app .isReady], 1, 1) := by decide
 
 /-! non-vacuity: capacity 2; two items go, the third send is blocked; one take tops the receiver up and the announcement
 reaches the sender, which `poll_receiver_closed` counts as well as `poll_send_ready` does -/
